@@ -25,7 +25,9 @@ ID = "C19"
 EXTRACTORS = ["opcodes"]
 LEAN_MODULES = ["HalmosVerif.Props.C19"]
 LEAN_EXTRA_TARGETS = []
-RULE = ("a case = (byte string, chunking, construction route): exhaustive strings over {STOP, 0x5b, PUSH1, PUSH2, PUSH32, JUMP, "
+RULE = ("a case = (byte string, chunking, construction route; routes include *views*: a template ByteVec patched in place by "
+        "set_byte/set_slice/__setitem__/set_word so that the first chunk is a truncated window, prefix and inner `slice` windows of "
+        "larger buffers, slice-of-slice, and code assembled in memory by CODECOPY+MSTORE8/MSTORE+RETURN on the real SEVM): exhaustive strings over {STOP, 0x5b, PUSH1, PUSH2, PUSH32, JUMP, "
         "unknown byte} up to a length bound, with every split position (the `_fastcode` prefix ends at every offset), unknown "
         "bytes as separate symbolic chunks and as one mixed numeral/unknown symbolic chunk; random strings up to 4 KiB over "
         "a pool biased to PUSHn/JUMPDEST/harvested literals ±1 with random chunkings; per case every pc in 0..len+1 is decoded, "
@@ -33,7 +35,7 @@ RULE = ("a case = (byte string, chunking, construction route): exhaustive string
         "symbolic condition) to every position 0..len+1 of generated bodies; trace programs = random block programs with forward "
         "and backward JUMP / JUMPI (literal true/false, symbolic CALLVALUE condition, MSIZE-guarded loops) whose destinations "
         "are drawn from all JUMPDESTs of the code incl. pc 0, the last byte and the byte after a PUSH32 operand, final "
-        "(status, pc, stack of PC-trail values) compared with the Lean reference executor Spec.Code.run; distinct = distinct (string, chunking); non-trivial = "
+        "(status, pc, stack of PC-trail values; programs also built as patched templates) compared with the Lean reference executor Spec.Code.run; distinct = distinct (string, chunking); non-trivial = "
         "every case (each one decodes real bytes)")
 TRUSTED = [
     "ByteVec content semantics (get_byte / slice are zero beyond the end) is modelled by content only; its chunk bookkeeping is C07",
@@ -116,6 +118,8 @@ class Case:
 
     @staticmethod
     def from_json(d):
+        if "view" in d:
+            return ViewCase(d["view"])
         return Case([(k, bytes.fromhex(v) if k == "c" else v) for k, v in d["pieces"]], d.get("route", "bytevec"))
 
     def fast_len(self):
@@ -429,8 +433,7 @@ def compare_case(ctx, case, impl, sigmas, head, model, specs, sweep, grid, extra
         ctx.violation("len:wrong", f"len(Contract) = {impl['len']} for {n} code bytes ({case.key()})", replay)
     if mlen != impl["len"]:
         model_stale(case, "len", impl["len"], mlen)
-    if mfast != impl["fast"]:
-        model_stale(case, "_fastcode", impl["fast"], mfast)
+    n_viol_before = sum(v["count"] for v in ctx.violations)
 
     # ---- jump destinations
     assert mj.startswith("ok "), mj
@@ -565,6 +568,11 @@ def compare_case(ctx, case, impl, sigmas, head, model, specs, sweep, grid, extra
     for idx, (s, z) in enumerate(extra_slices):
         cmp_slice(impl["xsl"][idx], mx[idx], [specs[j][4][idx] for j in range(nsig)], s, z)
     ctx.count("slices", len(grid) + len(extra_slices))
+    # `_fastcode` is internal state: a difference is a stale model only when nothing observable went wrong for this case
+    if mfast != impl["fast"]:
+        if sum(v["count"] for v in ctx.violations) == n_viol_before:
+            model_stale(case, "_fastcode", impl["fast"], mfast)
+        ctx.count("fastcode-differs-from-first-chunk")
 
 
 def _numeral_stop(case):
@@ -687,7 +695,7 @@ def random_chunking(rng, s, lens):
     for _ in range(rng.choice((0, 1, 1, 2, 3, 6))):
         cuts.add(rng.choice(lens + [rng.randrange(n + 1)]) % (n + 1))
     # forced cuts where a concrete run meets an unknown byte unless merged into a mixed chunk
-    mixed = rng.random() < 0.4
+    mixed = rng.random() < 0.4 and n <= 600      # a 4 KiB Concat term makes every byte read a costly z3 simplify
     cs = sorted(cuts)
     pieces = []
     for lo, hi in zip(cs, cs[1:], strict=False):
@@ -1095,14 +1103,27 @@ def check_trace_program(ctx, name, code, specs, sevmdrv, sevm, args, rng, layout
     o0, o1 = outcome_of_spec(r0), outcome_of_spec(r1)
     uses_cv = r0["cv"] or r1["cv"]
     expected = sorted([o0, o1], key=repr) if uses_cv else [o0]
-    lay = layout if layout is not None else rng.randrange(3)
+    lay = layout if layout is not None else rng.randrange(5)
     if lay == 0 or len(code) < 2:
         pgm = Contract(code)
     elif lay == 1:
         cut = rng.randrange(1, len(code))
         pgm = Contract(ByteVec([code[:cut], code[cut:]]))
-    else:
+    elif lay == 2:
         pgm = Contract.from_hexcode(code.hex())
+    else:
+        # the program as a patched template: one whole chunk, then a byte written in place (first chunk becomes a window)
+        i = rng.randrange(1, len(code))
+        t = bytearray(code)
+        t[i] = _alt(code[i])
+        bv = ByteVec(bytes(t))
+        if lay == 3:
+            bv.set_byte(i, code[i])
+        else:
+            bv = ByteVec(bytes(t) + bytes([0x5B, 0x60]))
+            bv.set_slice(i, i + 1, bytes([code[i]]))
+            bv = bv.slice(0, len(code))
+        pgm = Contract(bv)
     try:
         got = run_trace_real(sevmdrv, sevm, args, pgm)
     except Exception as e:  # noqa: BLE001
@@ -1165,16 +1186,263 @@ def sevm_trace_section(ctx, rng, lean):
     replies = lean.ask(lines)
     for k, (name, code) in enumerate(progs):
         specs = (parse_run(replies[2 * k]), parse_run(replies[2 * k + 1]))
-        layouts = (0, 1, 2) if not name.startswith("random") else (None,)
+        layouts = (0, 1, 2, 3, 4) if not name.startswith("random") else (None,)
         for lay in layouts:
             check_trace_program(ctx, name, code, specs, sevmdrv, sevm, args, rng, layout=lay)
+
+
+# --------------------------------------------------------------------------------------------------------------------
+# code that is a *view*: ByteVecs whose chunks are windows into larger / patched buffers
+
+def _alt(b):
+    """a different byte of a different decoding class"""
+    return {0x5B: 0x60, 0x60: 0x5B, 0x61: 0x5B, 0x7F: 0x00}.get(b, 0x5B)
+
+
+def apply_view_reference(recipe):
+    """the bytes the recipe denotes, computed on a plain bytearray (no ByteVec involved)"""
+    buf = bytearray(b"".join(bytes.fromhex(h) for h in recipe["buffer"]))
+    for op, off, val in recipe.get("ops", []):
+        data = bytes([val]) if op == "set_byte" else bytes.fromhex(val)
+        if off > len(buf):
+            buf += bytes(off - len(buf))
+        buf[off: off + len(data)] = data
+    cur = bytes(buf)
+    for a, b in recipe.get("windows", []):
+        cur = cur[a:b].ljust(max(b - a, 0), b"\x00")
+    return cur
+
+
+def build_view_bytevec(recipe):
+    h = H()
+    ByteVec = h["ByteVec"]
+    bv = ByteVec([bytes.fromhex(x) for x in recipe["buffer"]])
+    for op, off, val in recipe.get("ops", []):
+        if op == "set_byte":
+            bv.set_byte(off, val)
+        elif op == "set_slice":
+            data = bytes.fromhex(val)
+            bv.set_slice(off, off + len(data), data)
+        elif op == "setitem":
+            data = bytes.fromhex(val)
+            bv[off: off + len(data)] = data
+        elif op == "set_word":
+            bv.set_word(off, int.from_bytes(bytes.fromhex(val), "big"))
+        else:
+            raise ValueError(op)
+    for a, b in recipe.get("windows", []):
+        bv = bv.slice(a, b)
+    return bv
+
+
+def pieces_of_bytevec(bv):
+    """the chunk list `Contract.__init__` is handed (concrete chunks only)"""
+    h = H()
+    out = []
+    for _, ch in bv.chunks.items():
+        if not isinstance(ch, h["ConcreteChunk"]):
+            raise RuntimeError(f"view route produced a non-concrete chunk: {ch!r}")
+        out.append(("c", bytes(ch.unwrap())))
+    return out
+
+
+class ViewCase(Case):
+    """recipe = {"buffer": [hex…] initial chunks, "ops": [[set_byte|set_slice|setitem|set_word, off, val]…],
+                 "windows": [[a, b]…] successive ByteVec.slice calls, "tail": n unknown bytes appended afterwards,
+                 "memory": optional hex of an init program run on the real SEVM whose RETURN data is the code}"""
+
+    def __init__(self, recipe, bv=None, expected=None):
+        self.recipe = recipe
+        self._bv = bv if bv is not None else build_view_bytevec(recipe)
+        self.expected = expected if expected is not None else apply_view_reference(recipe)
+        pieces = pieces_of_bytevec(self._bv)
+        tail = recipe.get("tail", 0)
+        if tail:
+            pieces.append(("s", tail))
+        Case.__init__(self, pieces, "view")
+        self.pieces = pieces          # keep empty chunks etc. exactly as found
+        got = b"".join(v for k, v in pieces if k == "c")
+        self.content_ok = got == self.expected
+
+    def key(self):
+        return "view|" + json.dumps(self.recipe, sort_keys=True)
+
+    def to_json(self):
+        return {"view": self.recipe}
+
+    def build(self):
+        h = H()
+        z3 = h["z3"]
+        bv = self._bv.copy() if hasattr(self._bv, "copy") else self._bv
+        names = []
+        tail = self.recipe.get("tail", 0)
+        if tail:
+            pos = len(self.expected)
+            nm = f"c19_s{pos}_{tail}"
+            bv.append(z3.BitVec(nm, 8 * tail))
+            names.append((nm, tail, pos))
+        return h["Contract"](bv), names
+
+
+def memory_view_case(sevmdrv, sevm, args, template, patches, ret):
+    """assemble code in memory the way a constructor does, on the real SEVM:
+       CODECOPY(0, off, len(template)); MSTORE8/MSTORE patches; RETURN(ret[0], ret[1]).  The template sits in the middle of
+       the init program's own code (followed by more code bytes).  Returns a ViewCase over the RETURN data."""
+    def push(v):
+        if v == 0:
+            return bytes([0x5F])
+        b = v.to_bytes((v.bit_length() + 7) // 8, "big")
+        return bytes([0x5F + len(b)]) + b
+
+    def prog(toff):
+        out = push(len(template)) + bytes([0x61]) + toff.to_bytes(2, "big") + bytes([0x5F, 0x39])
+        for kind, off, val in patches:
+            out += push(val) + push(off) + bytes([0x53 if kind == "mstore8" else 0x52])
+        out += push(ret[1]) + push(ret[0]) + bytes([0xF3])
+        return out
+    toff = len(prog(0))
+    init = prog(toff) + template + bytes([0x00, 0x5B])
+    exs = list(sevm.run(sevmdrv.mk_ex(sevm, args, init)))
+    if len(exs) != 1 or exs[0].context.output.error is not None:
+        raise RuntimeError(f"memory route: init program did not return: {init.hex()}")
+    data = exs[0].context.output.data
+    mem = bytearray(template)
+    for kind, off, val in patches:
+        b = bytes([val & 0xFF]) if kind == "mstore8" else val.to_bytes(32, "big")
+        if off + len(b) > len(mem):
+            mem += bytes(off + len(b) - len(mem))
+        mem[off: off + len(b)] = b
+    expected = bytes(mem[ret[0]: ret[0] + ret[1]]).ljust(ret[1], b"\x00")
+    recipe = {"memory": init.hex(), "buffer": [], "note": "RETURN data of this init program on the real SEVM"}
+    return ViewCase(recipe, bv=data, expected=expected)
+
+
+VIEW_DIRECTED = {
+    "view-push1-patched-to-jumpdest": {"buffer": ["5b605b00"], "ops": [["set_byte", 1, 0x5B]]},
+    "view-jumpdest-patched-to-push1": {"buffer": ["5b5b5b00"], "ops": [["set_byte", 1, 0x60]]},
+    "view-patched-push20-operand": {"buffer": ["73" + "00" * 20 + "5b00"],
+                                    "ops": [["set_slice", 1, "c0ffee254729296a45a3885639ac7e10f9d54979"]]},
+    "view-prefix-of-larger-buffer": {"buffer": ["5b61aabbccdd5b"], "windows": [[0, 3]]},
+    "view-window-not-at-zero": {"buffer": ["605b61aabbccdd5b5b"], "windows": [[1, 6]]},
+    "view-set-word-over-push32": {"buffer": ["7f" + "5b" * 32 + "5b00"], "ops": [["set_word", 1, "00" * 31 + "60"]]},
+    "view-patch-at-end-of-first-chunk": {"buffer": ["605b5b", "5b00"], "ops": [["set_slice", 2, "60"]]},
+    "view-slice-of-slice": {"buffer": ["00" * 4 + "5b605b5b00ff"], "ops": [["set_byte", 5, 0x5B]], "windows": [[2, 12], [2, 7]]},
+}
+
+
+def gen_view_cases(ctx, rng, pool):
+    cases = []
+    alpha = [b for b in ALPHABET if b is not None]
+    Lv = ctx.scale(3, 5)
+    # exhaustive: every concrete string up to Lv, every single-byte patch position, and as a prefix / inner window of a buffer
+    for n in range(1, Lv + 1):
+        for s_ in itertools.product(alpha, repeat=n):
+            s_ = bytes(s_)
+            for i in range(n):
+                t = bytearray(s_)
+                t[i] = _alt(s_[i])
+                cases.append(ViewCase({"buffer": [bytes(t).hex()], "ops": [["set_byte", i, s_[i]]]}))
+            cases.append(ViewCase({"buffer": [(s_ + bytes([0x5B, 0x60, 0xFF, 0x5B])).hex()], "windows": [[0, n]]}))
+            cases.append(ViewCase({"buffer": [(bytes([0x60]) + s_ + bytes([0x5B, 0x5B])).hex()], "windows": [[1, n + 1]]}))
+    ctx.extra["exhaustive_views"] = f"concrete strings up to length {Lv}: every set_byte patch position, prefix window, inner window"
+    # random: several ops of several kinds, windows, symbolic tail
+    for _ in range(ctx.scale(700, 6000)):
+        n = rng.randrange(2, 12) if rng.random() < 0.7 else rng.randrange(12, 80)
+        final = bytes(rng.choice(pool) if rng.random() < 0.6 else rng.choice(alpha) for _ in range(n))
+        t = bytearray(final)
+        ops = []
+        for _ in range(rng.choice((1, 1, 2, 3))):
+            kind = rng.choice(("set_byte", "set_slice", "setitem", "set_slice", "set_word"))
+            if kind == "set_byte":
+                i = rng.randrange(n)
+                t[i] = _alt(final[i])
+                ops.append(["set_byte", i, final[i]])
+            elif kind in ("set_slice", "setitem"):
+                i = rng.randrange(n)
+                ln = min(n - i, rng.choice((1, 1, 2, 3, 20, 32)))
+                for j in range(i, i + ln):
+                    t[j] = _alt(final[j])
+                ops.append([kind, i, final[i: i + ln].hex()])
+            elif n >= 32:
+                i = rng.randrange(n - 31)
+                for j in range(i, i + 32):
+                    t[j] = _alt(final[j])
+                ops.append(["set_word", i, final[i: i + 32].hex()])
+        # later ops must not be undone by the template of earlier ones: recompute the ops' data from `final` (done) and apply in order
+        cut = rng.choice((0, 0, 1)) * rng.randrange(1, n) if n > 1 else 0
+        buffer = [bytes(t).hex()] if not cut else [bytes(t[:cut]).hex(), bytes(t[cut:]).hex()]
+        recipe = {"buffer": buffer, "ops": ops}
+        r = rng.random()
+        if r < 0.35:
+            extra = bytes(rng.choice((0x5B, 0x60, 0xFF, 0x7F)) for _ in range(rng.randrange(1, 5)))
+            recipe["buffer"] = buffer[:-1] + [buffer[-1] + extra.hex()]
+            k = rng.randrange(1, n + 1)
+            recipe["windows"] = [[0, k]] if rng.random() < 0.7 else [[0, n], [0, k]]
+        elif r < 0.5:
+            a = rng.randrange(0, n)
+            recipe["windows"] = [[a, rng.randrange(a, n + 3)]]
+        if rng.random() < 0.15:
+            recipe["tail"] = rng.randrange(1, 4)
+        cases.append(ViewCase(recipe))
+    return cases
+
+
+def view_section(ctx, rng, pool, lean):
+    from vlib import sevmdrv
+    cases = [ViewCase(r) for r in VIEW_DIRECTED.values()]
+    cases += gen_view_cases(ctx, rng, pool)
+    # memory-assembled code on the real SEVM (constructor style)
+    sevm, args = sevmdrv.mk_sevm(depth=TRACE_DEPTH)
+    alpha = [b for b in ALPHABET if b is not None]
+    mem_cases = []
+    for _ in range(ctx.scale(60, 600)):
+        n = rng.randrange(2, 40)
+        template = bytes(rng.choice(alpha + [0x5B, 0x60]) for _ in range(n))
+        patches = []
+        for _ in range(rng.choice((1, 1, 2))):
+            if rng.random() < 0.75:
+                patches.append(("mstore8", rng.randrange(n), rng.choice((0x5B, 0x60, 0x61, 0x00, 0x7F))))
+            else:
+                patches.append(("mstore", rng.randrange(max(1, n - 8)), rng.getrandbits(256) | (0x5B << 248)))
+        total = max([n] + [off + (1 if k == "mstore8" else 32) for k, off, _ in patches])
+        a = rng.choice((0, 0, 0, rng.randrange(total)))
+        ret = (a, rng.choice((total - a, n - a if n > a else 1, rng.randrange(1, total - a + 1))))
+        mem_cases.append(memory_view_case(sevmdrv, sevm, args, template, patches, ret))
+    ctx.count("view:memory-assembled", len(mem_cases))
+    cases += mem_cases
+    good = []
+    for c in cases:
+        if not c.content_ok:
+            ctx.violation("view:bytevec-content-differs",
+                          f"the ByteVec handed to Contract holds {b''.join(v for k, v in c.pieces if k == 'c').hex()}, the operations "
+                          f"denote {c.expected.hex()} ({c.key()[:200]})", c.to_json())
+        else:
+            good.append(c)
+        f = c.fast_len()
+        first = next((ch for _, ch in c._bv.chunks.items()), None)
+        if first is not None and hasattr(first, "data") and isinstance(first.data, bytes):
+            ctx.count("view:first-chunk:" + ("window-at-0-shorter-than-buffer" if first.start == 0 and len(first) < len(first.data)
+                                               else "window-not-at-0" if first.start != 0 else "whole-buffer"))
+    run_cases(ctx, [c for c in good if c.n <= 12], rng, True, "views-small")
+    run_cases(ctx, [c for c in good if c.n > 12], rng, False, "views-medium", extra_slices_fn=lambda case: _view_slices(case, rng))
+
+
+def _view_slices(case, rng):
+    f = case.fast_len() or 0
+    n = case.n
+    marks = sorted({0, 1, max(f - 1, 0), f, f + 1, max(n - 1, 0), n, n + 1})
+    out = {(a, z) for a in marks for z in (0, 1, 2, 20, 32, 33)}
+    out |= {(a, b - a) for a in marks for b in marks if b >= a}
+    lst = sorted(out)
+    rng.shuffle(lst)
+    return tuple(lst[:30])
 
 
 # --------------------------------------------------------------------------------------------------------------------
 
 def run_cases(ctx, cases, rng, small, label, extra_slices_fn=None):
     lean = ctx.lean("Code")
-    B = 4000 if small else 6
+    B = 4000 if small else (200 if all(c.n <= 500 for c in cases) else 6)
     for i in range(0, len(cases), B):
         batch = cases[i: i + B]
         reqs, fins = [], []
@@ -1198,7 +1466,9 @@ def corpus_cases():
             except Exception:  # noqa: BLE001
                 continue
             r = data.get("replay", data)
-            if "pieces" in r:
+            if "view" in r:
+                out.append(ViewCase(r["view"]))
+            elif "pieces" in r:
                 out.append(Case.from_json(r))
     return out
 
@@ -1275,6 +1545,10 @@ def correspond(ctx):
     run_cases(ctx, uniq, rng, True, "exhaustive")
 
     _lap(ctx, "exhaustive")
+    # 1a. code that is a view into patched / larger buffers (set_byte / set_slice / set_word / slice windows / memory-assembled)
+    view_section(ctx, rng, pool, ctx.lean("Code"))
+
+    _lap(ctx, "views")
     # 1b. random sample of the next lengths of the small scope (beyond the exhaustive bound)
     more = []
     for _ in range(ctx.scale(1500, 6000)):
@@ -1375,6 +1649,17 @@ def replay_numeral_witness(ctx):
 
 def replay(ctx, data) -> bool:
     r = data.get("replay", data)
+    if "view" in r and "memory" in r["view"]:
+        from vlib import sevmdrv
+        sevm, args = sevmdrv.mk_sevm(depth=TRACE_DEPTH)
+        exs = list(sevm.run(sevmdrv.mk_ex(sevm, args, bytes.fromhex(r["view"]["memory"]))))
+        bv = exs[0].context.output.data
+        case = ViewCase(r["view"], bv=bv, expected=b"".join(v for _, v in pieces_of_bytevec(bv)))
+        before = len(ctx.violations)
+        run_cases(ctx, [case], ctx.rng, case.n <= 12, "replay")
+        for v in ctx.violations[before:]:
+            print(f"  {v['key']}: {v['what']}")
+        return len(ctx.violations) > before
     if "sevm_trace" in r:
         from vlib import sevmdrv
         sevm, args = sevmdrv.mk_sevm(depth=TRACE_DEPTH)
